@@ -209,6 +209,10 @@ class kLeastAbsErrors(pathmodel.AbstractPathModelDAG):
         self.length_attr = length_attr
 
         if self.solution_weights_superset is not None:
+            # (the caller's k is replaced below: validate it first)
+            if self.k is not None and (not isinstance(self.k, int) or self.k <= 0):
+                utils.logger.error(f"{__name__}: k must be a positive integer, not {self.k}")
+                raise ValueError(f"k must be a positive integer, not {self.k}")
             self.k = len(self.solution_weights_superset)
             self.optimization_options["allow_empty_paths"] = True
             self.optimization_options["optimize_with_safe_paths"] = False
